@@ -254,6 +254,25 @@ def fill(claim, na):
         "Trusted: argsort/searchsorted results are bounded by the array length; Cython lowering.",
         "DESIGN.md section 2, C05",
     )
-    for p in ["C08", "C08", "C09", "C10",
+    claim(
+        "C10",
+        "classification of every pointer-array subscript of the lowered kmertable.pyx by "
+        "block-structured reaching definitions (loop counter / guarded scalar / validated array / "
+        "produced by create_kmers / rule-provided), dominance of validator calls, sibling "
+        "comparison of the two table classes, pickling argument agreement (custom ast analysis)",
+        "Decides memory-safety guards and sibling agreement of KmerTable/BucketKmerTable: every "
+        "pointer-array subscript whose index is not a loop counter over the array's own shape is "
+        "traced to its origin; a caller's scalar k-mer needs `< 0` and `>= len` tests (three known "
+        "findings: __getitem__ x2, __contains__), a caller's k-mer array needs a dominating "
+        "_check_kmer_bounds/_check_multiple_kmer_bounds, arrays passed to the private counters/"
+        "adders are validated or come from create_kmers(); the validators reject on both sides; "
+        "both table classes expose the same public methods with the same parameters and the same "
+        "validators (frozen list of class-specific methods); unpickling receives every "
+        "constructor argument, state is saved/restored by the paired helpers and __cinit__ sets "
+        "every C attribute. Not decided: exactness of match sets, selectors.",
+        "Trusted: k-mers returned by a SimilarityRule are valid; create_kmers() validates symbol codes (C03).",
+        "DESIGN.md section 2, C10",
+    )
+    for p in ["C08", "C08", "C09",
               "C11", "C14", "C15", "C16", "C19"]:
         na(p, PENDING)
